@@ -40,13 +40,13 @@ ASSUMPTIONS = [
     "geometry and the facet normal",
 ]
 BUDGET = {"quick": {"examples": 5000, "seconds": 70}, "thorough": {"examples": 160000, "seconds": 1500}}
-LABEL_FLOORS = {"quick": {"valid": 1200, "invalid:missing": 150, "invalid:double": 100, "mode:default": 1000, "mode:propagate": 400}}
+LABEL_FLOORS = {"quick": {"valid": 1200, "invalid:missing": 150, "invalid:double": 40, "mode:default": 1000, "mode:propagate": 400}}
 
 OPS = {"arith", "math", "cond", "index", "tensor", "compound", "deriv", "pow", "abs", "var", "sign"}
-PLAIN = Profile(ops=OPS, leaves={"coef", "const", "lit", "x", "geo", "zero", "eye", "n"}, max_rank=2, elements="all",
-                interior=False, facet=True, manifolds=False, args=((0, "any"),))
+PLAIN = Profile(ops=OPS - {"restr"}, leaves={"coef", "const", "lit", "x", "geo", "zero", "eye", "n"}, max_rank=2, elements="all",
+                interior=True, facet=True, manifolds=True, args=((0, "any"),))
 RESTR = Profile(ops=OPS | {"restr"}, leaves={"coef", "const", "lit", "x", "geo", "zero", "eye", "n"}, max_rank=2,
-                elements="all", interior=True, facet=True, manifolds=False, args=((0, "any"),), weights={"restr": 3})
+                elements="all", interior=True, facet=True, manifolds=True, args=((0, "any"),), weights={"restr": 3})
 
 
 @st.composite
@@ -81,7 +81,7 @@ def cases(draw, tier):
         e = term()
         if draw(st.integers(0, 2)) == 0:
             e = ["restr", e, draw(st.sampled_from(["+", "-"]))]
-    return {"world": world, "expr": e, "vars": G.vars, "style": style,
+    return {"world": world, "expr": e, "vars": G.vars, "style": style, "lower": draw(st.integers(0, 3)) == 0,
             "mode": draw(st.sampled_from(["default", "default", "propagate"])), "env_seed": draw(st.integers(0, 10**6))}
 
 
@@ -118,7 +118,21 @@ def classify(e):
             stack.append((n.ufl_operands[0], k + 1, False))
             continue
         if isinstance(n, (Grad, ReferenceGrad)):
-            # a derivative tower is side dependent whatever it differentiates
+            # a derivative tower is side dependent whatever it differentiates; the restriction may sit anywhere
+            # between the derivative nodes and the terminal (ReferenceGrad(x('+')) is how the pipeline writes it)
+            o, inside = n, 0
+            while isinstance(o, (Grad, ReferenceGrad, ReferenceValue, Restricted)):
+                if isinstance(o, Restricted):
+                    inside += 1
+                o = o.ufl_operands[0]
+            if o._ufl_is_terminal_:
+                if isinstance(o, (ConstantValue, Constant)):
+                    continue
+                if k + inside == 0:
+                    missing = True
+                if k + inside >= 2:
+                    double = True
+                continue
             if k == 0:
                 missing = True
             stack.append((n.ufl_operands[0], max(k, 1), True))
@@ -187,6 +201,11 @@ def check_case(case):
     b, e0 = build_case(case)
     try:
         e = apply_derivatives(apply_algebra_lowering(e0))
+        if case.get("lower"):
+            # as in compute_form_data with geometry lowering: reference-cell quantities reach the propagation
+            from ufl.algorithms.apply_geometry_lowering import apply_geometry_lowering
+
+            e = apply_derivatives(apply_geometry_lowering(e))
     except RecursionError:
         raise
     except Exception as ex:
@@ -195,7 +214,10 @@ def check_case(case):
     double, missing, above = classify(e)
     default = {b.mesh: "+"} if case["mode"] == "default" else None
     must_raise = double or (missing and default is not None)
-    labels = ["mode:" + case["mode"], "style:" + case["style"]]
+    labels = ["mode:" + case["mode"], "style:" + case["style"]] + (["lowered"] if case.get("lower") else [])
+    w = case["world"]
+    if w["gdim"] > {"interval": 1, "triangle": 2, "tetrahedron": 3}[w["cell"]]:
+        labels.append("manifold")
     try:
         out = apply_restrictions(e, default_restrictions=default)
         raised = None
